@@ -226,3 +226,82 @@ def check_sorted_results_unsorted(ctx, fi, rule='R-PERM/unsort-before-return'):
                    'applied: the rows come back in sorted, not requested, '
                    'order', witness=cfg.fmt_path(p) if p else None)
     return n
+
+
+_DESTROYERS = {'merge_index_list', 'sort', 'sorted', 'unique', 'set',
+               'min', 'max', 'amin', 'amax'}
+_WRAPPERS = {'array', 'asarray', 'deepcopy', 'copy', 'list', 'tuple'}
+
+
+def check_request_order(ctx, fi, rule='R-PERM/request-order'):
+    """a reader that is asked for rows in a given order and derives an
+    order-free summary of the request (its sorted copy, its merged ranges,
+    its minimum and maximum) must not answer from the summary alone: what
+    it returns has to depend on the request itself (a gather by it, its
+    argsort, a callee that is handed it) as well.  Otherwise the rows come
+    back in file order, whatever order was asked for."""
+    from ..core.defuse import Expander
+    from ..core import terms as T
+    cfg = cfg_of(fi)
+    rd = rd_of(fi)
+    ex = Expander(fi)
+    params = {a.arg for a in fi.node.args.posonlyargs + fi.node.args.args
+              + fi.node.args.kwonlyargs} - {'self', 'cls'}
+
+    def strip(t):
+        while isinstance(t, tuple) and t and t[0] == 'call' \
+                and T.call_name(t) in _WRAPPERS and t[2]:
+            t = t[2][0]
+        return t
+
+    n = 0
+    for r in cfg.nodes:
+        if r.kind != 'return' or r.id not in rd.live \
+                or r.ast.value is None:
+            continue
+        t = ex.expand(r.ast.value, r.id)
+        lost = set()
+        kept = set()
+
+        def visit(x, under):
+            if isinstance(x, frozenset):
+                for y in x:
+                    visit(y, under)
+                return
+            if not isinstance(x, tuple) or not x:
+                return
+            if x[0] == 'param' and x[1] in params:
+                (lost if under else kept).add(x[1])
+                return
+            if x[0] == 'call':
+                nm = T.call_name(x)
+                if nm == 'argsort':
+                    for a in x[2]:
+                        s_ = strip(a)
+                        if s_[0] == 'param':
+                            kept.add(s_[1])
+                    return
+                if nm in _DESTROYERS and x[2]:
+                    s_ = strip(x[2][0])
+                    if isinstance(s_, tuple) and s_ and s_[0] == 'param':
+                        for a in x[2]:
+                            visit(a, True)
+                        for (_k, v) in x[3]:
+                            visit(v, under)
+                        return
+            for y in x[1:]:
+                if isinstance(y, (tuple, frozenset)):
+                    visit(y, under)
+        visit(t, False)
+        for p in sorted(lost):
+            n += 1
+            ok = p in kept
+            ctx.touch(fi)
+            ctx.ob(rule, f'{fi.qual}:{p}:return#{n - 1}', fi.loc(r.ast), ok,
+                   f'the answer depends on `{p}` itself, not only on its '
+                   'sorted / merged form' if ok else
+                   f'`{unparse(r.ast)[:60]}` is computed from `{p}` only '
+                   'through an order-free summary (sorted copy, merged '
+                   'ranges, min / max): the rows come back in file order, '
+                   'not in the order requested')
+    return n
